@@ -206,5 +206,32 @@ func ParseBalance(text, csvOut string) (*Balance, error) {
 	return b, nil
 }
 
+// ParseBalanceText reads a balance report from the text rendering alone: the
+// numeric cells are the text cells with thousands separators removed (exact
+// when --digits is at least the number of decimals in play).
+func ParseBalanceText(text string) (*Balance, error) {
+	tt, err := ParseText(text)
+	if err != nil {
+		return nil, err
+	}
+	var w strings.Builder
+	cw := csv.NewWriter(&w)
+	for _, r := range tt.Rows {
+		if r.Blank() {
+			continue
+		}
+		rec := make([]string, len(r.Cells))
+		for i, c := range r.Cells {
+			rec[i] = strings.TrimSpace(c)
+			if i > 0 {
+				rec[i] = strings.ReplaceAll(rec[i], ",", "")
+			}
+		}
+		cw.Write(rec)
+	}
+	cw.Flush()
+	return ParseBalance(text, w.String())
+}
+
 // RuneWidth is the display width knut assumes (rune count).
 func RuneWidth(s string) int { return utf8.RuneCountInString(s) }
